@@ -1052,5 +1052,54 @@ mod verif_deflate_core {
         kani::cover!(kraft_in == 1 << 9 && total == n && n >= 9, "COV:huff.nine_codes");
     }
 
+    // ------------------------------------------------------------------
+    // K-fasttail : the real compress_fast with a flush requested and fewer than 4 bytes of work (the tail path:
+    // no hashing, only the literal loop). Symbolic data, flags, window bits, flush mode; concrete positions.
+    // ------------------------------------------------------------------
+    fn fast_tail_body<const N: usize>(la0: usize) {
+        let mut d = any_compressor!();
+        kani::assume(d.params.flags & TDEFL_FORCE_ALL_RAW_BLOCKS == 0);
+        let pos0: usize = 1000;
+        d.dict.lookahead_pos = pos0;
+        d.dict.lookahead_size = la0;
+        d.dict.size = kani::any();
+        kani::assume(d.dict.size <= LZ_DICT_SIZE - la0);
+        d.params.flush = any_flush();
+        kani::assume(d.params.flush != TDEFLFlush::None);
+        d.params.src_pos = 0;
+        let pre: [u8; 3] = kani::any();
+        let mut k = 0; while k < 3 { if k < la0 { d.dict.b.dict[pos0 + k] = pre[k]; } k += 1; }
+        let inb: [u8; N] = kani::any();
+        let mut outb = [0u8; 8];
+        let ok;
+        {
+            let mut cb = CallbackOxide::new_callback_buf(&inb[..], &mut outb[..]);
+            ok = compress_fast(&mut d, &mut cb);
+        }
+        let total = la0 + N;
+        assert!(ok && d.params.src_pos == N, "OBL:fasttail.consumes_all_offered_input [C02]");
+        assert!(d.dict.lookahead_size == 0, "OBL:fasttail.flush_request_drains_even_a_1_to_3_byte_lookahead [C12 C02]");
+        assert!(d.dict.lookahead_pos == pos0 + total && d.lz.total_bytes as usize == total, "OBL:fasttail.every_byte_becomes_a_token [C01 C02 C12]");
+        // all literals, in order
+        assert!(d.lz.code_position == 1 + total && d.lz.num_flags_left as usize == 8 - total, "OBL:fasttail.token_buffer_cursors [C02]");
+        let mut i = 0;
+        while i < 6 {
+            if i < total {
+                let want = if i < la0 { pre[i] } else { inb[i - la0] };
+                assert!(d.lz.codes[1 + i] == want, "OBL:fasttail.tail_bytes_are_emitted_as_literals_in_order [C01 C02]");
+            }
+            i += 1;
+        }
+    }
+    #[kani::proof]
+    #[kani::unwind(8)]
+    #[kani::stub(flush_block, model_flush_block_noop)]
+    fn k_fast_tail() {
+        fast_tail_body::<1>(0);
+        fast_tail_body::<2>(1);
+        fast_tail_body::<0>(3);
+        fast_tail_body::<3>(0);
+    }
+
     //@PLAYBACK@
 }
